@@ -644,16 +644,16 @@ pub fn run(ctx: &mut Ctx) {
         "a reply whose only defect is the size field, or that carries NEED_REPLY, may be accepted or refused (the statement lists REPLY flag, code, body validity and descriptors)".into(),
         "for the request server: each handler invocation must be explained by a well-formed request literally present in the sent bytes (same oracle as C05)".into(),
     ];
-    let n = ctx.tier.pick(20_000u32, 400_000u32);
+    let n = ctx.tier.pick(20_000u32, 4_000_000u32);
     let target = op_strategy().prop_filter("call must await an answer", |op| !matches!(op, FeOp::SetLogFd | FeOp::SetLogBase { region: None, .. } | FeOp::SetProtocolFeatures(_)));
     let fes = (target, reply_vals(), any::<bool>(), proptest::collection::vec(rmut_strategy(), 0..=2)).prop_map(|(op, rv, need_reply, muts)| FeReplyCase { op, rv, need_reply, muts });
     ctx.prop_check("frontend_replies", n, fes, |ctx, c| run_fe_reply(ctx, c));
 
-    let n = ctx.tier.pick(10_000u32, 200_000u32);
+    let n = ctx.tier.pick(10_000u32, 2_000_000u32);
     let ps = (0u8..9, crate::engine::lat64(), proptest::collection::vec(rmut_strategy(), 0..=2)).prop_map(|(kind, val, muts)| ProxyCase { kind, val, muts });
     ctx.prop_check("proxy_replies", n, ps, |ctx, c| run_proxy(ctx, c));
 
-    let n = ctx.tier.pick(6_000u32, 200_000u32);
+    let n = ctx.tier.pick(6_000u32, 2_000_000u32);
     let ss = (any::<bool>(), proptest::collection::vec(br_chunk(), 1..=5)).prop_map(|(reply_ack, chunks)| BrStream { reply_ack, chunks });
     ctx.prop_check("frontend_request_server_streams", n, ss, |ctx, c| run_br_stream(ctx, c));
 
